@@ -18,9 +18,18 @@
   claimed `len` are independent, a store at an index `≥ block length` sets `oob`.  Their theorems
   have the hypothesis `len ≤ block length`; `wrapper_overclaim_detected` shows the flag being set
   when it fails.  With the NULL pointer `len` is not looked at (`amessage_null_any_len`).
+
+  The variadic entry points (`rtosc_vmessage`, `rtosc_message`, `ThreadLink::write`,
+  `RtData::reply/broadcast`) are stated for a call site that passes the promoted values of `cargs`
+  (`promote widen`) and ARBITRARY conversions `widen : float → double`, `narrow : double → float`
+  on bit patterns: no hypothesis about them.  What is written is the encoding of `m.sent narrow
+  widen` — `m` with exactly the values under an `'f'` tag replaced by `narrow (widen v)` — whose
+  length is that of `Spec.encode m` (`sent_same_size`): never-oob, fail-closed and exact-size do not
+  depend on float bits.  The `…_bytes` corollaries give `Spec.encode m` itself under C01's
+  hypothesis on the `'f'` values only (`fArgs`; `sent_eq_self`).
 -/
 import RtoscModel.Proofs.OscAccess
-import RtoscModel.Proofs.BundleAt
+import RtoscModel.Proofs.BundleVar
 namespace Rtosc.Osc
 open Rtosc
 
@@ -70,21 +79,50 @@ theorem amessage_null_size (m : Msg) (cargs : List CArg) (hwf : m.WF) (hd : Deno
   ⟨(Spec.encode m).length, amessage_null_spec m cargs hwf hd,
     fun buf h => ⟨_, amessage_spec m cargs buf hwf hd h⟩⟩
 
-/-- **vmessage_fixed_buffer** — `rtosc_vmessage` obeys the same discipline: for every destination
-    buffer of any capacity it behaves exactly like `rtosc_amessage` (the NULL buffer and
-    `rtosc_message` itself: `message_fixed_buffer`).  Hypothesis `hf`: every 32-bit argument passed
-    satisfies `narrow (widen v) = v` — it is only used for `float` arguments (the others are not
-    converted) and does not influence the size; the statement fixes the exact bytes, hence it is
-    kept (see ASSUMPTIONS of the property module; non-vacuity example at the end of the file). -/
+/-- **sent_same_size** — the message a variadic call site sends (`'f'` values converted to double
+    and back by arbitrary conversions) is well-formed, has the address and type string of `m`, and
+    its encoding has exactly the length of `Spec.encode m`: sizes do not depend on float bits. -/
+theorem sent_same_size (narrow : UInt64 → UInt32) (widen : UInt32 → UInt64) (m : Msg) (hwf : m.WF) :
+    (m.sent narrow widen).WF ∧ (m.sent narrow widen).addr = m.addr ∧ (m.sent narrow widen).tags = m.tags ∧
+    (Spec.encode (m.sent narrow widen)).length = (Spec.encode m).length :=
+  ⟨wf_msg_viaDouble _ m hwf, rfl, rfl, encode_length_sent narrow widen m⟩
+
+/-- **sent_eq_self** — C01's hypothesis, on the values under an `'f'` tag only (`fArgs`): each of
+    them survives `float → double → float`.  Then the message sent is `m` itself. -/
+theorem sent_eq_self (narrow : UInt64 → UInt32) (widen : UInt32 → UInt64) (m : Msg) (cargs : List CArg)
+    (hd : Denote cargs m.args) (hf : ∀ v ∈ fArgs m.tags cargs, narrow (widen v) = v) :
+    m.sent narrow widen = m :=
+  sent_id narrow widen m cargs hd hf
+
+/-- **vmessage_fixed_buffer** — `rtosc_vmessage` obeys the same discipline, for every destination
+    of any capacity and with NO hypothesis on the float conversions: no store outside the buffer;
+    too small: 0 and `len` zero bytes; otherwise the return value is exactly the encoded size of `m`
+    and the buffer holds the encoding of the message sent, the bytes behind it untouched; with the
+    NULL buffer the return value is that size.  (`rtosc_message` itself: `message_fixed_buffer`.) -/
 theorem vmessage_fixed_buffer (narrow : UInt64 → UInt32) (widen : UInt32 → UInt64) (m : Msg)
+    (cargs : List CArg) (buf : Bytes) (hwf : m.WF) (hd : Denote cargs m.args) :
+    vmessage narrow (some buf) m.addr m.tags (promote widen m.tags cargs) =
+      some (if (Spec.encode m).length ≤ buf.length
+        then ⟨some (Spec.encode (m.sent narrow widen) ++ buf.drop (Spec.encode m).length),
+              (Spec.encode m).length, false⟩
+        else ⟨some (zeros buf.length), 0, false⟩) ∧
+    vmessage narrow none m.addr m.tags (promote widen m.tags cargs) =
+      some ⟨none, (Spec.encode m).length, false⟩ := by
+  have h := vmessage_disciplined_any narrow widen m cargs hwf hd
+  rw [Disciplined, encode_length_sent] at h
+  exact ⟨h.2 buf, h.1⟩
+
+/-- **vmessage_fixed_buffer_bytes** — under the `'f'`-only hypothesis the bytes are `Spec.encode m`:
+    `rtosc_vmessage` behaves exactly like `rtosc_amessage`. -/
+theorem vmessage_fixed_buffer_bytes (narrow : UInt64 → UInt32) (widen : UInt32 → UInt64) (m : Msg)
     (cargs : List CArg) (buf : Bytes) (hwf : m.WF) (hd : Denote cargs m.args)
-    (hf : ∀ v, CArg.w32 v ∈ cargs → narrow (widen v) = v) :
+    (hf : ∀ v ∈ fArgs m.tags cargs, narrow (widen v) = v) :
     vmessage narrow (some buf) m.addr m.tags (promote widen m.tags cargs) =
       some (if (Spec.encode m).length ≤ buf.length
         then ⟨some (Spec.encode m ++ buf.drop (Spec.encode m).length), (Spec.encode m).length, false⟩
         else ⟨some (zeros buf.length), 0, false⟩) := by
-  rw [vmessage_promote narrow widen (some buf) m.addr m.tags cargs m.args hwf.matches_ hd hf]
-  exact amessage_fixed m cargs buf hwf hd
+  have h := (vmessage_fixed_buffer narrow widen m cargs buf hwf hd).1
+  rwa [sent_id narrow widen m cargs hd hf] at h
 
 /-- **bundle_never_oob** — `rtosc_bundle` (repaired) never stores outside the `len` bytes:
     for every capacity, every time tag and *arbitrary* element blocks, whenever the call returns. -/
@@ -133,22 +171,56 @@ theorem appendBundle_never_oob (dst src : Bytes) (maxLen dstLen srcLen : Nat) (r
     r.oob = false ∧ r.buf.length = dst.length :=
   appendBundle_safe dst src maxLen dstLen srcLen r hmax h
 
+/-- **appendBundle_fail_closed** — `append_bundle` fails exactly when its guard
+    `max_len < dst_len + src_len + 4 || dst_len == 0 || src_len == 0` fires (`AppendFails`): the
+    return value is 0, the destination holds exactly the bytes it held before (it is NOT
+    zero-filled: the bundle built so far stays readable) and the source is not read.  Arbitrary
+    blocks and lengths. -/
+theorem appendBundle_fail_closed (dst src : Bytes) (maxLen dstLen srcLen : Nat)
+    (h : AppendFails maxLen dstLen srcLen) :
+    appendBundle dst src maxLen dstLen srcLen = .ok ⟨dst, 0, false⟩ :=
+  appendBundle_fails dst src maxLen dstLen srcLen h
+
+/-- **appendBundle_fit_exact** — the guard does not fire, `max_len` is honest and the source block
+    has the `src_len` bytes: the return value is exactly `dst_len + 4 + src_len`, the destination
+    is the old one with the size field and the element spliced in at `dst_len`, every other byte
+    untouched, no store outside.  Arbitrary contents (well-formed ones: C08's `appendBundle_eq_spec`). -/
+theorem appendBundle_fit_exact (dst src : Bytes) (maxLen dstLen srcLen : Nat)
+    (h : ¬ AppendFails maxLen dstLen srcLen) (hsrc : srcLen ≤ src.length) (hmax : maxLen ≤ dst.length) :
+    appendBundle dst src maxLen dstLen srcLen =
+      .ok ⟨dst.take dstLen ++ put32 (UInt32.ofNat srcLen) ++ src.take srcLen ++ dst.drop (dstLen + 4 + srcLen),
+        dstLen + srcLen + 4, false⟩ :=
+  appendBundle_fits dst src maxLen dstLen srcLen h hsrc hmax
+
+/-- **appendBundle_chain_after_failure** — the way `subtree_serialize` uses it,
+    `len = append_bundle(buffer, src_i, buffer_size, len, src_len_i)` for one captured message after
+    the other (`appendAll`): once an append fails, it and EVERY later append return 0 and the
+    destination keeps exactly the bytes it had before the failing call, whatever the later sources
+    and lengths are. -/
+theorem appendBundle_chain_after_failure (dst src : Bytes) (maxLen dstLen srcLen : Nat)
+    (rest : List (Bytes × Nat)) (h : AppendFails maxLen dstLen srcLen) :
+    appendAll dst maxLen dstLen ((src, srcLen) :: rest) = .ok ⟨dst, 0, false⟩ :=
+  appendAll_after_failure dst src maxLen dstLen srcLen rest h
+
+/-- **appendBundle_chain_never_oob** — the whole chain, successes and failures in any order,
+    never stores outside the destination block (`buffer_size ≤` block length). -/
+theorem appendBundle_chain_never_oob (dst : Bytes) (maxLen len : Nat) (srcs : List (Bytes × Nat)) (r : BResult)
+    (hmax : maxLen ≤ dst.length) (h : appendAll dst maxLen len srcs = .ok r) :
+    r.oob = false ∧ r.buf.length = dst.length :=
+  appendAll_safe maxLen srcs dst len r hmax h
+
 /-- `rtosc_amessage` obeys the discipline (`Disciplined`) on every buffer -/
 theorem amessage_disciplined (m : Msg) (cargs : List CArg) (hwf : m.WF) (hd : Denote cargs m.args) :
     Disciplined (fun buf => amessage buf m.addr m.tags cargs) (Spec.encode m) :=
   ⟨amessage_null_spec m cargs hwf hd, fun buf => amessage_fixed m cargs buf hwf hd⟩
 
-/-- and so does `rtosc_vmessage` at a call site that passes the promoted values of `cargs` -/
+/-- and so does `rtosc_vmessage` at a call site that passes the promoted values of `cargs`, with
+    respect to the encoding of the message sent (no hypothesis on the conversions) -/
 theorem vmessage_disciplined (narrow : UInt64 → UInt32) (widen : UInt32 → UInt64) (m : Msg)
-    (cargs : List CArg) (hwf : m.WF) (hd : Denote cargs m.args)
-    (hf : ∀ v, CArg.w32 v ∈ cargs → narrow (widen v) = v) :
-    Disciplined (fun buf => vmessage narrow buf m.addr m.tags (promote widen m.tags cargs)) (Spec.encode m) := by
-  constructor
-  · show vmessage narrow none m.addr m.tags (promote widen m.tags cargs) = _
-    rw [vmessage_promote narrow widen none m.addr m.tags cargs m.args hwf.matches_ hd hf]
-    exact amessage_null_spec m cargs hwf hd
-  · intro buf
-    exact vmessage_fixed_buffer narrow widen m cargs buf hwf hd hf
+    (cargs : List CArg) (hwf : m.WF) (hd : Denote cargs m.args) :
+    Disciplined (fun buf => vmessage narrow buf m.addr m.tags (promote widen m.tags cargs))
+      (Spec.encode (m.sent narrow widen)) :=
+  vmessage_disciplined_any narrow widen m cargs hwf hd
 
 /-- **amessage_null_any_len** — with the NULL buffer `len` is not looked at (`if(!buffer) return
     total_len;` comes first): `rtosc_amessage(NULL, len, …)` is the size query for every `len`. -/
@@ -157,19 +229,35 @@ theorem amessage_null_any_len (len : Nat) (addr tags : Bytes) (cargs : List CArg
 
 /-- **message_fixed_buffer** — `rtosc_message(buffer, len, address, arguments, ...)` itself (the
     variadic entry point named in the property): the caller owns the block `blk` and claims
-    `len ≤ blk.length`.  No store outside the block, the bytes behind `len` keep their values; too
-    small: 0 and `len` zero bytes; otherwise the exact size and the encoding. With NULL: the size. -/
+    `len ≤ blk.length`.  No hypothesis on the float conversions.  No store outside the block, the
+    bytes behind `len` keep their values; too small: 0 and `len` zero bytes; otherwise the exact size
+    and the encoding of the message sent.  With NULL: the size. -/
 theorem message_fixed_buffer (narrow : UInt64 → UInt32) (widen : UInt32 → UInt64) (m : Msg)
     (cargs : List CArg) (blk : Bytes) (len : Nat) (hwf : m.WF) (hd : Denote cargs m.args)
-    (hf : ∀ v, CArg.w32 v ∈ cargs → narrow (widen v) = v) (hlen : len ≤ blk.length) :
+    (hlen : len ≤ blk.length) :
+    rtoscMessage narrow (some blk) len m.addr m.tags (promote widen m.tags cargs) =
+      some (if (Spec.encode m).length ≤ len
+        then ⟨some (Spec.encode (m.sent narrow widen) ++ blk.drop (Spec.encode m).length),
+              (Spec.encode m).length, false⟩
+        else ⟨some (zeros len ++ blk.drop len), 0, false⟩) ∧
+    rtoscMessage narrow none len m.addr m.tags (promote widen m.tags cargs) =
+      some ⟨none, (Spec.encode m).length, false⟩ := by
+  have hd' := vmessage_disciplined narrow widen m cargs hwf hd
+  have h := callAt_fixed _ _ blk len hd' hlen
+  have h0 := hd'.1
+  rw [encode_length_sent] at h h0
+  exact ⟨h, h0⟩
+
+/-- **message_fixed_buffer_bytes** — under the `'f'`-only hypothesis the bytes are `Spec.encode m`. -/
+theorem message_fixed_buffer_bytes (narrow : UInt64 → UInt32) (widen : UInt32 → UInt64) (m : Msg)
+    (cargs : List CArg) (blk : Bytes) (len : Nat) (hwf : m.WF) (hd : Denote cargs m.args)
+    (hf : ∀ v ∈ fArgs m.tags cargs, narrow (widen v) = v) (hlen : len ≤ blk.length) :
     rtoscMessage narrow (some blk) len m.addr m.tags (promote widen m.tags cargs) =
       some (if (Spec.encode m).length ≤ len
         then ⟨some (Spec.encode m ++ blk.drop (Spec.encode m).length), (Spec.encode m).length, false⟩
-        else ⟨some (zeros len ++ blk.drop len), 0, false⟩) ∧
-    rtoscMessage narrow none len m.addr m.tags (promote widen m.tags cargs) =
-      some ⟨none, (Spec.encode m).length, false⟩ :=
-  ⟨callAt_fixed _ _ blk len (vmessage_disciplined narrow widen m cargs hwf hd hf) hlen,
-   (vmessage_disciplined narrow widen m cargs hwf hd hf).1⟩
+        else ⟨some (zeros len ++ blk.drop len), 0, false⟩) := by
+  have h := (message_fixed_buffer narrow widen m cargs blk len hwf hd hlen).1
+  rwa [sent_id narrow widen m cargs hd hf] at h
 
 /-- **tlink_writeArray_fixed_buffer** — `ThreadLink::writeArray` builds into `write_buffer`
     (`wbuf`, any previous content) and passes `MaxMsg` as capacity.  Provided the wrapper's claim
@@ -187,34 +275,63 @@ theorem tlink_writeArray_fixed_buffer (m : Msg) (cargs : List CArg) (wbuf : Byte
   · intro h; rw [if_neg (by omega)]; exact ⟨rfl, rfl⟩
   · intro h; rw [if_pos h]; exact ⟨rfl, rfl⟩
 
-/-- **tlink_write_fixed_buffer** — the same for the variadic `ThreadLink::write`. -/
+/-- **tlink_write_fixed_buffer** — the same for the variadic `ThreadLink::write`, with no
+    hypothesis on the float conversions: what a fitting call leaves in `write_buffer` is the
+    encoding of the message sent, whose size is that of `Spec.encode m`. -/
 theorem tlink_write_fixed_buffer (narrow : UInt64 → UInt32) (widen : UInt32 → UInt64) (m : Msg)
     (cargs : List CArg) (wbuf : Bytes) (maxMsg : Nat) (hwf : m.WF) (hd : Denote cargs m.args)
-    (hf : ∀ v, CArg.w32 v ∈ cargs → narrow (widen v) = v) (hcap : maxMsg ≤ wbuf.length) :
+    (hcap : maxMsg ≤ wbuf.length) :
     ∃ r, tlinkWrite narrow wbuf maxMsg m.addr m.tags (promote widen m.tags cargs) = some r ∧ r.oob = false ∧
       (maxMsg < (Spec.encode m).length → r.ret = 0 ∧ r.buf = some (zeros maxMsg ++ wbuf.drop maxMsg)) ∧
       ((Spec.encode m).length ≤ maxMsg → r.ret = (Spec.encode m).length ∧
-        r.buf = some (Spec.encode m ++ wbuf.drop (Spec.encode m).length)) := by
-  refine ⟨_, callAt_fixed _ _ wbuf maxMsg (vmessage_disciplined narrow widen m cargs hwf hd hf) hcap, ?_, ?_, ?_⟩
+        r.buf = some (Spec.encode (m.sent narrow widen) ++ wbuf.drop (Spec.encode m).length)) := by
+  have h := callAt_fixed _ _ wbuf maxMsg (vmessage_disciplined narrow widen m cargs hwf hd) hcap
+  rw [encode_length_sent] at h
+  refine ⟨_, h, ?_, ?_, ?_⟩
   · split <;> rfl
   · intro h; rw [if_neg (by omega)]; exact ⟨rfl, rfl⟩
   · intro h; rw [if_pos h]; exact ⟨rfl, rfl⟩
 
+/-- **tlink_write_fixed_buffer_bytes** — under the `'f'`-only hypothesis: `Spec.encode m` itself. -/
+theorem tlink_write_fixed_buffer_bytes (narrow : UInt64 → UInt32) (widen : UInt32 → UInt64) (m : Msg)
+    (cargs : List CArg) (wbuf : Bytes) (maxMsg : Nat) (hwf : m.WF) (hd : Denote cargs m.args)
+    (hf : ∀ v ∈ fArgs m.tags cargs, narrow (widen v) = v) (hcap : maxMsg ≤ wbuf.length) :
+    ∃ r, tlinkWrite narrow wbuf maxMsg m.addr m.tags (promote widen m.tags cargs) = some r ∧ r.oob = false ∧
+      (maxMsg < (Spec.encode m).length → r.ret = 0 ∧ r.buf = some (zeros maxMsg ++ wbuf.drop maxMsg)) ∧
+      ((Spec.encode m).length ≤ maxMsg → r.ret = (Spec.encode m).length ∧
+        r.buf = some (Spec.encode m ++ wbuf.drop (Spec.encode m).length)) := by
+  have h := tlink_write_fixed_buffer narrow widen m cargs wbuf maxMsg hwf hd hcap
+  rwa [sent_id narrow widen m cargs hd hf] at h
+
 /-- **rtdata_reply_fixed_buffer** — `RtData::reply(path,args,...)` and `RtData::broadcast` build
     into `char buffer[N]` on the stack (`stack`) and pass `cap` (N = cap = 8192 in the unchanged
-    source).  Provided `cap ≤ N`: never a store outside the N bytes; a message that needs more than
-    `cap` is replaced by the empty (all-zero) buffer, a message that fits is passed on intact. -/
+    source).  Provided `cap ≤ N`, with no hypothesis on the float conversions: never a store outside
+    the N bytes; a message that needs more than `cap` is replaced by the empty (all-zero) buffer, a
+    message that fits is passed on intact (the encoding of the message sent). -/
 theorem rtdata_reply_fixed_buffer (narrow : UInt64 → UInt32) (widen : UInt32 → UInt64) (m : Msg)
     (cargs : List CArg) (stack : Bytes) (cap : Nat) (hwf : m.WF) (hd : Denote cargs m.args)
-    (hf : ∀ v, CArg.w32 v ∈ cargs → narrow (widen v) = v) (hcap : cap ≤ stack.length) :
+    (hcap : cap ≤ stack.length) :
+    ∃ r, rtdataReply narrow stack cap m.addr m.tags (promote widen m.tags cargs) = some r ∧ r.oob = false ∧
+      (cap < (Spec.encode m).length → r.ret = 0 ∧ r.buf = some (zeros cap ++ stack.drop cap)) ∧
+      ((Spec.encode m).length ≤ cap → r.ret = (Spec.encode m).length ∧
+        r.buf = some (Spec.encode (m.sent narrow widen) ++ stack.drop (Spec.encode m).length)) := by
+  have h := callAt_fixed _ _ stack cap (vmessage_disciplined narrow widen m cargs hwf hd) hcap
+  rw [encode_length_sent] at h
+  refine ⟨_, h, ?_, ?_, ?_⟩
+  · split <;> rfl
+  · intro h; rw [if_neg (by omega)]; exact ⟨rfl, rfl⟩
+  · intro h; rw [if_pos h]; exact ⟨rfl, rfl⟩
+
+/-- **rtdata_reply_fixed_buffer_bytes** — under the `'f'`-only hypothesis: `Spec.encode m` itself. -/
+theorem rtdata_reply_fixed_buffer_bytes (narrow : UInt64 → UInt32) (widen : UInt32 → UInt64) (m : Msg)
+    (cargs : List CArg) (stack : Bytes) (cap : Nat) (hwf : m.WF) (hd : Denote cargs m.args)
+    (hf : ∀ v ∈ fArgs m.tags cargs, narrow (widen v) = v) (hcap : cap ≤ stack.length) :
     ∃ r, rtdataReply narrow stack cap m.addr m.tags (promote widen m.tags cargs) = some r ∧ r.oob = false ∧
       (cap < (Spec.encode m).length → r.ret = 0 ∧ r.buf = some (zeros cap ++ stack.drop cap)) ∧
       ((Spec.encode m).length ≤ cap → r.ret = (Spec.encode m).length ∧
         r.buf = some (Spec.encode m ++ stack.drop (Spec.encode m).length)) := by
-  refine ⟨_, callAt_fixed _ _ stack cap (vmessage_disciplined narrow widen m cargs hwf hd hf) hcap, ?_, ?_, ?_⟩
-  · split <;> rfl
-  · intro h; rw [if_neg (by omega)]; exact ⟨rfl, rfl⟩
-  · intro h; rw [if_pos h]; exact ⟨rfl, rfl⟩
+  have h := rtdata_reply_fixed_buffer narrow widen m cargs stack cap hwf hd hcap
+  rwa [sent_id narrow widen m cargs hd hf] at h
 
 /-- **wrapper_overclaim_detected** — the capacity hypotheses above are not decoration: a wrapper
     that claims more than it owns (here: a 24-byte block, `len` 32, the 32-byte message below)
@@ -247,18 +364,46 @@ example : (amessage (some (List.replicate 32 170)) c02Msg.addr c02Msg.tags (c02M
 example : amessage (some []) c02Msg.addr c02Msg.tags (c02Msg.args.map Arg.toC) = some ⟨some [], 0, false⟩ := by
   decide +kernel
 
-/-- the hypothesis `hf` of the variadic theorems (a `float` argument survives `float → double →
-    float`, which IEEE-754 guarantees for every non-signalling pattern; `int`/`char`/colour
-    arguments are 32-bit too and are not converted at all) holds of the target's conversions on
-    this message, and the wrapper theorems apply to it with the buffers of the unchanged source -/
-example : ∀ v, CArg.w32 v ∈ c02Msg.args.map Arg.toC → narrowF64 (widenF32 v) = v := by
-  intro v hv
-  have : v = 0x7fffffff := by simpa [c02Msg, Arg.toC] using hv
-  subst this
-  decide +kernel
+/-- the `'f'`-only hypothesis of the `…_bytes` corollaries is trivially true of this message (no
+    `'f'` tag: its 32-bit argument `0x7fffffff` is an `int` and is not converted) -/
+example : fArgs c02Msg.tags (c02Msg.args.map Arg.toC) = [] := by decide +kernel
 example : (8192 : Nat) ≤ (List.replicate 8192 (170 : UInt8)).length := by rw [List.length_replicate]; exact Nat.le_refl _
 example : (rtoscMessage narrowF64 (some (List.replicate 40 170)) 32 c02Msg.addr c02Msg.tags
     (promote widenF32 c02Msg.tags (c02Msg.args.map Arg.toC))).map (fun r => (r.ret, r.oob)) = some (32, false) := by
+  decide +kernel
+
+/-- `"/a" ",if"` with the bit pattern of a signalling NaN in both arguments (the `int` is the
+    review's `/a ,i 0x7f800001`): 16 bytes -/
+def snanMsg : Msg := ⟨[47, 97], [105, 102], [.w32 0x7f800001, .w32 0x7f800001]⟩
+
+example : snanMsg.WF := by decide +kernel
+example : (Spec.encode snanMsg).length = 16 := by decide +kernel
+example : Denote (snanMsg.args.map Arg.toC) snanMsg.args := denote_toC _ (by decide)
+/-- the target's conversions quieten it: the old hypothesis `hf` (and the `'f'`-only one) is FALSE
+    of this message … -/
+example : narrowF64 (widenF32 0x7f800001) = 0x7fc00001 := by decide +kernel
+example : fArgs snanMsg.tags (snanMsg.args.map Arg.toC) = [0x7f800001] := by decide +kernel
+/-- … the message sent differs from it in the `float` only (the `int` with the same bits is
+    untouched), and the theorems without float hypothesis apply: capacity 15 fails closed, 16 fits
+    exactly, through `rtosc_message`, `ThreadLink::write` and `RtData::reply` alike -/
+example : snanMsg.sent narrowF64 widenF32 = ⟨[47, 97], [105, 102], [.w32 0x7f800001, .w32 0x7fc00001]⟩ := by
+  decide +kernel
+example : vmessage narrowF64 (some (List.replicate 15 170)) snanMsg.addr snanMsg.tags
+    (promote widenF32 snanMsg.tags (snanMsg.args.map Arg.toC)) = some ⟨some (zeros 15), 0, false⟩ := by
+  decide +kernel
+example : vmessage narrowF64 (some (List.replicate 17 170)) snanMsg.addr snanMsg.tags
+    (promote widenF32 snanMsg.tags (snanMsg.args.map Arg.toC)) =
+    some ⟨some [47, 97, 0, 0, 44, 105, 102, 0, 0x7f, 0x80, 0, 1, 0x7f, 0xc0, 0, 1, 170], 16, false⟩ := by
+  decide +kernel
+example : (tlinkWrite narrowF64 (List.replicate 20 170) 16 snanMsg.addr snanMsg.tags
+    (promote widenF32 snanMsg.tags (snanMsg.args.map Arg.toC))).map (fun r => (r.ret, r.oob)) = some (16, false) := by
+  decide +kernel
+example : (tlinkWrite narrowF64 (List.replicate 20 170) 12 snanMsg.addr snanMsg.tags
+    (promote widenF32 snanMsg.tags (snanMsg.args.map Arg.toC))) =
+    some ⟨some (zeros 12 ++ List.replicate 8 170), 0, false⟩ := by
+  decide +kernel
+example : (rtdataReply narrowF64 (List.replicate 24 170) 24 snanMsg.addr snanMsg.tags
+    (promote widenF32 snanMsg.tags (snanMsg.args.map Arg.toC))).map (fun r => (r.ret, r.oob)) = some (16, false) := by
   decide +kernel
 
 /-- the 20-byte message `"/abcdefg" ",i" 1` -/
@@ -283,5 +428,13 @@ theorem bundle_unfixed_overflows :
 /-- with 40 bytes the same call fits exactly -/
 example : (match bundle (List.replicate 40 170) 0 [f2Elem] with
     | .ok r => some (r.ret, r.oob) | _ => none) = some (40, false) := by decide +kernel
+
+/-- `append_bundle`: a 40-byte destination holding a 16-byte empty bundle, 20-byte elements.
+    The first append fits (40 = 16 + 4 + 20), the second does not: the guard fires, … -/
+example : ¬ AppendFails 40 16 20 := by decide
+example : AppendFails 40 40 20 := by decide
+/-- … the chain returns 0, and the destination still holds the bundle with the first element -/
+example : appendAll (bundleMagic ++ zeros 8 ++ List.replicate 24 170) 40 16 [(f2Elem, 20), (f2Elem, 20), (f2Elem, 20)] =
+    .ok ⟨bundleMagic ++ zeros 8 ++ [0, 0, 0, 20] ++ f2Elem, 0, false⟩ := by decide +kernel
 
 end Rtosc.Osc
